@@ -731,6 +731,7 @@ func init() {
 		Run: func(c *Ctx) {
 			c.ListerRules("C18")
 			c.OverlayRules("C18")
+			c.LookupsReadOnly("C18")
 			c.ResolvedName("C18")
 			c.LosslessSplit("C18")
 			c.ListRuleApproves("C18")
